@@ -454,8 +454,9 @@ def run(ctx):
     items = [(c, 60) for c in configs(ctx.tier)]
     items += [(c, 3 if ctx.tier == 'quick' else 4) for c in two_agent_configs(ctx.tier)]
     items += [(c, 60) for c in odd_flag_configs()]
-    if ctx.small:      # reduced exploration: worlds with extents from {0, 1.5, 3} only, one agent
-        items = [it for it in items if len(it[0][3]) == 1 and all(d in (0, 1.5, 3) for d in it[0][1])]
+    if ctx.small:      # reduced exploration: seven shapes, one agent
+        keep = ([3, 3, 0], [0, 3, 3], [3, 3, 3], [1.5, 1.5, 0], [0, 1.5, 1.5], [3], [3, 2])
+        items = [it for it in items if len(it[0][3]) == 1 and list(it[0][1]) in keep]
     pairs = [(('grid', [4, 3]), ('grid', [2, 5])), (('space', [3, 3, 0]), ('space', [1.5, 1, 0])),
              (('grid', [2, 2]), ('discrete', [3, 1, 2])), (('discrete', [3, 3, 3]), ('line', [2]))]
     for fst, snd in pairs:
